@@ -2370,23 +2370,63 @@ fn hmmr_line(out: &mut Out, id: &str, chain: &Chain) -> Vec<String> {
 	v
 }
 
+/// a header for the forks run: made-up proof reaching the difficulty (always-Ok verifier), or, with
+/// `real`, genuinely mined at the chain's minimum edge bits (real verifier)
+#[allow(clippy::too_many_arguments)]
+fn forks_header(
+	real: bool,
+	rng: &mut Rng,
+	prev: &BlockHeader,
+	root: Hash,
+	diff: u64,
+	scaling: u32,
+	eb: u8,
+	gap: i64,
+) -> Option<BlockHeader> {
+	if !real {
+		return make_db_header(rng, prev, root, diff, scaling, eb, gap, true);
+	}
+	let min_eb = global::min_edge_bits();
+	let mut h = make_db_header(rng, prev, root, diff, scaling, min_eb, gap, false)?;
+	let ts = h.timestamp;
+	let r = pc(|| {
+		let mut hh = h.clone();
+		pow::pow_size(&mut hh, Difficulty::from_num(diff.max(1)), global::proofsize(), min_eb).map(|_| hh)
+	});
+	match r {
+		Some(Ok(hh)) if hh.timestamp == ts => {
+			h = hh;
+			Some(h)
+		}
+		_ => None,
+	}
+}
+
 fn run_forks(out: &mut Out, rng: &mut Rng, thorough: bool) {
 	let work = std::env::var("VERIF_WORK").unwrap_or_else(|_| "/verif/work/cons-forks.d".to_string());
 	let _ = std::fs::remove_dir_all(&work);
 	std::fs::create_dir_all(&work).unwrap();
 	// (chain type, its token, name of the run part, node id, genesis total difficulty, steps,
 	//  genesis timestamp override: a tree that starts before the unix epoch and grows across it)
-	let mut chains: Vec<(ChainTypes, &str, &str, &str, u64, usize, Option<i64>)> = vec![
-		(ChainTypes::Mainnet, "main", "main", "fm", 1 << 17, if thorough { 500 } else { 160 }, None),
-		(ChainTypes::AutomatedTesting, "auto", "auto", "fa", 1000, if thorough { 400 } else { 120 }, None),
-		(ChainTypes::UserTesting, "user", "user", "fu", 3000, if thorough { 250 } else { 70 }, None),
-		(ChainTypes::Mainnet, "main", "main-pre-epoch", "fmn", 1 << 17, if thorough { 250 } else { 70 }, Some(-6000)),
-		(ChainTypes::AutomatedTesting, "auto", "auto-pre-epoch", "fan", 1000, if thorough { 250 } else { 70 }, Some(-4000)),
+	let mut chains: Vec<(ChainTypes, &str, &str, &str, u64, usize, Option<i64>, &str)> = vec![
+		(ChainTypes::Mainnet, "main", "main", "fm", 1 << 17, if thorough { 500 } else { 160 }, None, ""),
+		(ChainTypes::AutomatedTesting, "auto", "auto", "fa", 1000, if thorough { 400 } else { 120 }, None, ""),
+		(ChainTypes::UserTesting, "user", "user", "fu", 3000, if thorough { 250 } else { 70 }, None, ""),
+		(ChainTypes::Mainnet, "main", "main-pre-epoch", "fmn", 1 << 17, if thorough { 250 } else { 70 }, Some(-40000), ""),
+		(ChainTypes::AutomatedTesting, "auto", "auto-pre-epoch", "fan", 1000, if thorough { 250 } else { 70 }, Some(-25000), ""),
+		// early: most steps grow headers below height 11, so side branches in header versions 1..4
+		// (DMA era with the secondary-scaling rule) of the testing chain types
+		(ChainTypes::AutomatedTesting, "auto", "auto-early", "fae", 1000, if thorough { 200 } else { 60 }, None, "early"),
+		(ChainTypes::UserTesting, "user", "user-early", "fue", 3000, if thorough { 120 } else { 40 }, None, "early"),
+		// real: the chain's verifier is pow::verify_size and every header is genuinely mined
+		(ChainTypes::AutomatedTesting, "auto", "auto-real-pow", "far", 0, if thorough { 160 } else { 45 }, None, "real"),
 	];
 	if thorough {
-		chains.push((ChainTypes::Testnet, "test", "test", "ft", 1 << 16, 300, None));
+		chains.push((ChainTypes::Testnet, "test", "test", "ft", 1 << 16, 300, None, ""));
 	}
-	for (ct, ctok, cn, id, g_td, n_steps, gen_ts) in chains.iter() {
+	for (ct, ctok, cn, id, g_td, n_steps, gen_ts, mode) in chains.iter() {
+		let real = *mode == "real";
+		let early = *mode == "early";
 		global::set_local_chain_type(*ct);
 		let mut kr = KnownRun {
 			stats: Stats(BTreeMap::new()),
@@ -2394,7 +2434,7 @@ fn run_forks(out: &mut Out, rng: &mut Rng, thorough: bool) {
 			oracle_fails: 0,
 			tips: vec![],
 			sync_calls: 1,
-			always_ok: true,
+			always_ok: !real,
 			dom: "wnode",
 			full: false,
 		};
@@ -2403,7 +2443,9 @@ fn run_forks(out: &mut Out, rng: &mut Rng, thorough: bool) {
 			ChainTypes::Testnet => genesis::genesis_test(),
 			_ => genesis::genesis_dev(),
 		};
-		genesis.header.pow.total_difficulty = Difficulty::from_num(*g_td);
+		if *g_td > 0 {
+			genesis.header.pow.total_difficulty = Difficulty::from_num(*g_td);
+		}
 		if let Some(t) = gen_ts {
 			set_ts(&mut genesis.header, *t);
 		}
@@ -2412,7 +2454,7 @@ fn run_forks(out: &mut Out, rng: &mut Rng, thorough: bool) {
 				format!("{}/{}", work, cn),
 				Arc::new(NoopAdapter {}),
 				genesis.clone(),
-				ok_verifier,
+				if real { pow::verify_size } else { ok_verifier },
 				false,
 				None,
 			)
@@ -2428,7 +2470,7 @@ fn run_forks(out: &mut Out, rng: &mut Rng, thorough: bool) {
 		let mut tree: Vec<TreeHdr> = vec![TreeHdr {
 			h: genesis.header.clone(),
 			parent: None,
-			rule: (*g_td, 0),
+			rule: (genesis.header.pow.total_difficulty.to_num(), 0),
 		}];
 		// the header the rules make header_head: the first delivered one with the most work
 		let mut best: usize = 0;
@@ -2476,6 +2518,13 @@ fn run_forks(out: &mut Out, rng: &mut Rng, thorough: bool) {
 				}
 				_ => (best, 1, "extend"),
 			};
+			let (mut parent, len, kind) = if early && rng.chance(3, 4) {
+				let low: Vec<usize> = (0..tree.len()).filter(|i| tree[*i].h.height < 11).collect();
+				(*rng.pick(&low), rng.range(1, 3) as usize, "early")
+			} else {
+				(parent, len, kind)
+			};
+			let _ = &mut parent;
 			kr.stats.hit(&format!("step_{}", kind));
 			let chunked = len > 1 && rng.chance(1, 2);
 			let mut chunk: Vec<BlockHeader> = vec![];
@@ -2486,10 +2535,16 @@ fn run_forks(out: &mut Out, rng: &mut Rng, thorough: bool) {
 				let tw = true_window(&path);
 				let next = consensus::next_difficulty(prev.height + 1, tw);
 				let root = header_mmr_root(&path);
-				let eb = if rng.chance(4, 10) { second } else { *rng.pick(&primaries) };
+				let eb = if real {
+					min_eb
+				} else if rng.chance(4, 10) {
+					second
+				} else {
+					*rng.pick(&primaries)
+				};
 				let gap = gap_of(rng);
 				let (d0, s0) = (next.difficulty.to_num(), next.secondary_scaling);
-				let exact = match make_db_header(rng, &prev, root, d0, s0, eb, gap, true) {
+				let exact = match forks_header(real, rng, &prev, root, d0, s0, eb, gap) {
 					Some(h) => h,
 					None => {
 						out.raw(&format!("#STAT forks {}: no proof reaching difficulty {} found at height {}", cn, d0, prev.height + 1));
@@ -2519,6 +2574,10 @@ fn run_forks(out: &mut Out, rng: &mut Rng, thorough: bool) {
 				if rng.chance(1, 3) {
 					wrong.push(("difficulty+1".to_string(), d0 + 1, s0));
 					wrong.push(("difficulty-1".to_string(), d0 - 1, s0));
+					if !v5 {
+						wrong.push(("scaling+1".to_string(), d0, s0.wrapping_add(1)));
+						wrong.push(("scaling-1".to_string(), d0, s0.wrapping_sub(1)));
+					}
 				}
 				let hh_before = chain.header_head().unwrap();
 				// the time rule on signed seconds: not later than the parent (equal, earlier, before
@@ -2535,7 +2594,7 @@ fn run_forks(out: &mut Out, rng: &mut Rng, thorough: bool) {
 					tvs.push(("ts=reader-min", reader_ts_range().0));
 					let pick = tvs[rng.below(tvs.len() as u64) as usize];
 					for (tk, t) in [tvs[0], pick].iter() {
-						let m = match make_db_header(rng, &prev, root, d0, s0, eb, *t - pts, true) {
+						let m = match forks_header(real, rng, &prev, root, d0, s0, eb, *t - pts) {
 							Some(m) => m,
 							None => continue,
 						};
@@ -2558,7 +2617,7 @@ fn run_forks(out: &mut Out, rng: &mut Rng, thorough: bool) {
 					}
 				}
 				for (wkind, d, s) in wrong.iter() {
-					let m = match make_db_header(rng, &prev, root, *d, *s, eb, gap, true) {
+					let m = match forks_header(real, rng, &prev, root, *d, *s, eb, gap) {
 						Some(m) => m,
 						None => continue,
 					};
@@ -2581,6 +2640,50 @@ fn run_forks(out: &mut Out, rng: &mut Rng, thorough: bool) {
 					}
 					if chunked && !chunk.is_empty() && chain.get_block_header(&chunk[0].hash()).is_ok() {
 						kr.fail(out, format!("forks {}: first header of a refused chunk stored: {}", cn, show_stored(&chunk[0])));
+					}
+				}
+				// real proof of work on a side branch: the rules' values with a proof that is no cycle
+				// for THIS header's contents
+				if real && rng.chance(1, 2) {
+					let mut pvs: Vec<(&str, BlockHeader)> = vec![];
+					let mut m = exact.clone();
+					m.pow.nonce = m.pow.nonce.wrapping_add(1);
+					pvs.push(("pow.nonce+1", m));
+					let mut m = exact.clone();
+					m.pow.proof.edge_bits += 1;
+					pvs.push(("edge_bits+1", m));
+					if let Some(x) = forks_header(real, rng, &prev, root, d0, s0, eb, gap + 7) {
+						// the cycle of another (never delivered) header in this header's fields
+						let mut m = exact.clone();
+						m.pow.proof = x.pow.proof.clone();
+						pvs.push(("proof-of-another-header", m));
+					}
+					let mut m = exact.clone();
+					let k = rng.below(m.pow.proof.nonces.len() as u64) as usize;
+					m.pow.proof.nonces[k] ^= 1;
+					m.pow.proof.nonces.sort_unstable();
+					pvs.push(("proof_nonce^1", m));
+					for (pk, m) in pvs.iter() {
+						let genuine = pc(|| pow::verify_size(m).is_ok()).unwrap_or(false);
+						if genuine {
+							// (8 nonces on 2^10 edges: now and then they are a cycle of the other graph too;
+							// then it is simply another valid header - not delivered, it would take the hash)
+							kr.stats.hit("pow_variant_happens_to_verify");
+							continue;
+						}
+						out.raw(&format!("# forks {} step {} height {} {} verify_size={}", cn, step, m.height, pk, genuine));
+						kr.stats.hit(&format!("pow_{}", pk));
+						let class = if chunked && !chunk.is_empty() {
+							let mut batch = chunk.clone();
+							batch.push(m.clone());
+							kr.sync(out, id, &chain, Options::NONE, &batch)
+						} else {
+							kr.pbh(out, id, &chain, Options::NONE, m)
+						};
+						let hh = chain.header_head().unwrap();
+						if !genuine && (class != "InvalidPow" || hh.last_block_h != hh_before.last_block_h) {
+							kr.fail(out, format!("forks {}: side-branch header whose proof does not verify ({}) answered {}: hdr={}", cn, pk, class, show_stored(m)));
+						}
 					}
 				}
 				// the exact header
@@ -2687,6 +2790,192 @@ fn run_forks(out: &mut Out, rng: &mut Rng, thorough: bool) {
 		kr.stats.0.insert("tree_leaves".to_string(), leaves as u64);
 		kr.stats.dump(out, &format!("forks {}", cn));
 	}
+}
+
+// ---------------------------------------------------------------------------------------------
+// deny mode: Chain::invalidate_header (the denylist behind ctx.header_allowed)
+// ---------------------------------------------------------------------------------------------
+
+fn deny_class(e: &grin_chain::Error) -> String {
+	if format!("{:?}", e).contains("denied") {
+		"Denied".to_string()
+	} else {
+		chain_err_class(e)
+	}
+}
+
+fn run_deny(out: &mut Out, rng: &mut Rng, thorough: bool) {
+	global::set_local_chain_type(ChainTypes::AutomatedTesting);
+	let work = std::env::var("VERIF_WORK").unwrap_or_else(|_| "/verif/work/cons-deny.d".to_string());
+	let _ = std::fs::remove_dir_all(format!("{}/dbuilder", work));
+	let _ = std::fs::remove_dir_all(format!("{}/dsubject", work));
+	std::fs::create_dir_all(&work).unwrap();
+	let mut stats = Stats(BTreeMap::new());
+	let kc = ExtKeychain::from_seed(&rng.bytes(32), false).unwrap();
+	let genesis = {
+		let key_id = ExtKeychain::derive_key_id(0, 1, 0, 0, 0);
+		let reward =
+			libtx::reward::output(&kc, &libtx::ProofBuilder::new(&kc), &key_id, 0, false).unwrap();
+		genesis::genesis_dev().with_reward(reward.0, reward.1)
+	};
+	let builder = open_chain(&format!("{}/dbuilder", work), &genesis);
+	let subject = open_chain(&format!("{}/dsubject", work), &genesis).chain;
+	let mut main: Vec<BlockHeader> = vec![genesis.header.clone()];
+	let mut fails = 0u64;
+	let n_blocks: u32 = if thorough { 40 } else { 16 };
+	// deliver a header through one of the three entry points; class of the answer
+	let deliver = |via: &str, h: &BlockHeader, body: &Block| -> String {
+		let r = match via {
+			"pbh" => pc(|| subject.process_block_header(h, Options::NONE).map(|_| ())),
+			"sync" => pc(|| {
+				let sh = subject.header_head().unwrap();
+				subject.sync_block_headers(&[h.clone()], sh, Options::NONE).map(|_| ())
+			}),
+			_ => pc(|| {
+				let mut b = body.clone();
+				b.header = h.clone();
+				subject.process_block(b, Options::NONE).map(|_| ())
+			}),
+		};
+		match &r {
+			None => "panic".to_string(),
+			Some(Ok(())) => "ok".to_string(),
+			Some(Err(e)) => deny_class(e),
+		}
+	};
+	for n in 1..=n_blocks {
+		let gap = rng.range(20, 200) as i64;
+		let b = build_next(&builder.chain, &kc, n, gap);
+		let v = b.header.clone();
+		let prev = main.last().unwrap().clone();
+		let window = window_at(&subject, v.prev_hash);
+		// the model line of validate_header with / without the denylist flag
+		let vh_line = |out: &mut Out, den: bool, h: &BlockHeader, class: &str| {
+			let powok = pc(|| pow::verify_size(h).is_ok()).unwrap_or(false);
+			out.line(
+				&format!(
+					"cons vh auto {} 0 {} {} {} {}",
+					if den { 1 } else { 0 },
+					if powok { 1 } else { 0 },
+					show_hdr(&prev),
+					show_hdr(h),
+					show_window(&window)
+				),
+				class,
+			);
+		};
+		// (1) a valid new header whose hash was denied beforehand: refused on every entry path
+		for (k, via) in ["pbh", "sync", "pb"].iter().enumerate() {
+			let mut x = v.clone();
+			set_ts(&mut x, v.timestamp.timestamp() + 2 + k as i64);
+			if !remine(&mut x) {
+				continue;
+			}
+			let hh0 = subject.header_head().unwrap();
+			subject.invalidate_header(x.hash()).unwrap();
+			let class = deliver(via, &x, &b);
+			stats.hit(&format!("denied_new_{}_{}", via, class));
+			out.raw(&format!("# deny height {} new header with a denied hash via {}", v.height, via));
+			// (the body stage never runs: the header is refused first)
+			vh_line(out, true, &x, &class);
+			let hh1 = subject.header_head().unwrap();
+			if class != "Denied" || hh1.last_block_h != hh0.last_block_h || subject.get_block_header(&x.hash()).is_ok() {
+				fails += 1;
+				out.raw(&format!("#ORACLE-FAIL C04 deny: header with a denied hash via {} answered {} (stored: {}): hdr={}", via, class, subject.get_block_header(&x.hash()).is_ok(), show_hdr(&x)));
+			}
+		}
+		// the honest block (never denied) is accepted
+		let class = deliver("pb", &v, &b);
+		vh_line(out, false, &v, if class == "ok" { "ok" } else { &class });
+		if class != "ok" {
+			fails += 1;
+			out.raw(&format!("#ORACLE-FAIL C04 deny: honest block at height {} answered {}", v.height, class));
+			break;
+		}
+		builder.chain.process_block(b.clone(), Options::MINE).unwrap();
+		main.push(v.clone());
+		// (2) two stored side headers x (to be denied) and c (control), siblings of the new head
+		let mut sib = |dt: i64| -> Option<BlockHeader> {
+			let mut x = v.clone();
+			set_ts(&mut x, v.timestamp.timestamp() + dt);
+			if remine(&mut x) { Some(x) } else { None }
+		};
+		let (x, c) = match (sib(11), sib(13)) {
+			(Some(x), Some(c)) => (x, c),
+			_ => continue,
+		};
+		for s in [&x, &c] {
+			let class = deliver("pbh", s, &b);
+			if class != "ok" {
+				fails += 1;
+				out.raw(&format!("#ORACLE-FAIL C04 deny: honest sibling header at height {} answered {}", s.height, class));
+			}
+		}
+		subject.invalidate_header(x.hash()).unwrap();
+		// a stored header that is denied afterwards is refused when it is validated again (batch path)
+		let class = deliver("sync", &x, &b);
+		stats.hit(&format!("denied_stored_resent_sync_{}", class));
+		if class != "Denied" {
+			fails += 1;
+			out.raw(&format!("#ORACLE-FAIL C04 deny: stored header denied afterwards and re-sent in a batch answered {}: hdr={}", class, show_hdr(&x)));
+		}
+		// (3) children of the denied side header x and of the control c: the fork re-application
+		// (rewind_and_apply_header_fork) re-validates x against the denylist
+		for (parent, denied) in [(&x, true), (&c, false)] {
+			let mut path: Vec<BlockHeader> = main[..main.len() - 1].to_vec();
+			path.push(parent.clone());
+			let next = consensus::next_difficulty(parent.height + 1, window_at(&subject, parent.hash()));
+			let mut y = parent.clone();
+			y.height = parent.height + 1;
+			y.version = consensus::header_version(y.height);
+			y.prev_hash = parent.hash();
+			y.prev_root = header_mmr_root(&path);
+			set_ts(&mut y, parent.timestamp.timestamp() + 30);
+			y.output_mmr_size = grin_core::core::pmmr::insertion_to_pmmr_index(grin_core::core::pmmr::n_leaves(parent.output_mmr_size) + 1);
+			y.kernel_mmr_size = grin_core::core::pmmr::insertion_to_pmmr_index(grin_core::core::pmmr::n_leaves(parent.kernel_mmr_size) + 1);
+			y.pow.total_difficulty = Difficulty::from_num(parent.pow.total_difficulty.to_num() + next.difficulty.to_num());
+			y.pow.secondary_scaling = next.secondary_scaling;
+			if !remine(&mut y) {
+				continue;
+			}
+			let via = if n % 2 == 0 { "pbh" } else { "sync" };
+			let hh0 = subject.header_head().unwrap();
+			let class = deliver(via, &y, &b);
+			let hh1 = subject.header_head().unwrap();
+			stats.hit(&format!("child_of_{}_{}_{}", if denied { "denied" } else { "control" }, via, class));
+			if denied {
+				if class != "Denied" || hh1.last_block_h != hh0.last_block_h {
+					fails += 1;
+					out.raw(&format!("#ORACLE-FAIL C04 deny: child of a denied side-branch header via {} answered {} (header_head moved: {}): child={} denied_parent={}", via, class, hh1.last_block_h != hh0.last_block_h, show_hdr(&y), show_hdr(parent)));
+				}
+			} else if class != "ok" {
+				fails += 1;
+				out.raw(&format!("#ORACLE-FAIL C04 deny: child of an allowed side-branch header via {} answered {}: child={}", via, class, show_hdr(&y)));
+			} else {
+				// the control child has more work than the head: the header chain moved to it; bring
+				// it back by extending the main chain in the next round (the body chain is untouched)
+				stats.hit("control_child_is_header_head");
+			}
+		}
+	}
+	// observation (reported, not an oracle): the denylist is consulted for the delivered header and for
+	// the fork headers that have to be re-applied to the header MMR; whether a denied body head is
+	// looked at again when its child arrives depends on whether it is on the current HEADER chain
+	{
+		let head = main.last().unwrap().clone();
+		let on_header_chain = pc(|| subject.get_header_by_height(head.height).map(|h| h.hash() == head.hash()).unwrap_or(false)).unwrap_or(false);
+		subject.invalidate_header(head.hash()).unwrap();
+		let b = build_next(&builder.chain, &kc, n_blocks + 1, 60);
+		let class = deliver("pb", &b.header, &b);
+		out.raw(&format!(
+			"#STAT deny observation: block on top of the body head after the head's hash was put on the denylist (head on the current header chain: {}): {}",
+			on_header_chain, class
+		));
+	}
+	if fails == 0 {
+		stats.hit("oracle_ok");
+	}
+	stats.dump(out, "deny");
 }
 
 // ---------------------------------------------------------------------------------------------
@@ -4988,10 +5277,11 @@ fn main() {
 		"dbwin" => run_dbwin(&mut out, &mut rng, thorough),
 		"roots" => run_roots(&mut out, &mut rng, thorough),
 		"forks" => run_forks(&mut out, &mut rng, thorough),
+		"deny" => run_deny(&mut out, &mut rng, thorough),
 		"powsize" => run_powsize(&mut out, &mut rng, thorough),
 		"wire" => run_wire(&mut out, &mut rng, thorough),
 		_ => {
-			eprintln!("usage: cons diff|chain|known|globals|dbwin|roots|forks|powsize|wire");
+			eprintln!("usage: cons diff|chain|known|globals|dbwin|roots|forks|deny|powsize|wire");
 			std::process::exit(2);
 		}
 	}
